@@ -586,3 +586,15 @@ pub fn tl_probe() -> Vec<u64> {
     v.push(e.location().map(|l| l.line()).unwrap_or(0));
     v
 }
+
+// ---- C20: soft wrapping of folded blocks ----
+
+pub fn wrapping_fold(s: &str, indent: usize, indent_step: usize, wrap_col: usize) -> String {
+    let mut out = String::new();
+    let _ = crate::wrapping::write_folded_block(&mut out, s, indent, indent_step, wrap_col);
+    out
+}
+
+pub fn wrapping_first_line_leading_spaces(s: &str) -> usize {
+    crate::wrapping::first_line_leading_spaces(s)
+}
